@@ -85,8 +85,20 @@ def _only_conversions(v):
         args = [strip(a) for a in v[3]]
         if v[1] == 'unwrap_or':
             fb = args[1]
-            fb_ok = isinstance(fb, tuple) and fb[0] == 'const' and fb[1].endswith('::MAX')
+            # saturating fallback of the counter's own width
+            fb_ok = isinstance(fb, tuple) and fb[0] == 'const' and fb[1].endswith('::MAX') and fb[2] == 2 ** 64 - 1
             return fb_ok and _only_conversions(args[0])
+        if v[1] in ('try_into', 'try_from', 'into', 'from'):
+            # the conversion target must be able to hold every usize: u64 / u128 / usize
+            ga = [g for g in (v[4] or ())]
+            wide = {'u64', 'u128', 'usize'}
+            tgt = None
+            if v[1] in ('try_into', 'into') and len(ga) >= 2:
+                tgt = ga[1]
+            elif v[1] in ('try_from', 'from') and len(ga) >= 1:
+                tgt = ga[0]
+            if tgt not in wide:
+                return False
         return _only_conversions(args[0])
     if v[0] == 'conv':
         return _only_conversions(v[1])
